@@ -245,6 +245,20 @@ ssize_t verif_sendto(int fd, const void *buf, size_t len, int flags, const struc
 	if (len >= RAW_HDR_LEN && !memcmp(p, raw_header, RAW_HDR_IDENT_LEN)) ev_begin("rawtx ");
 	else ev_begin("tx ");
 	ev_hex(p, len);
+	if (!(len >= RAW_HDR_LEN && !memcmp(p, raw_header, RAW_HDR_IDENT_LEN))) {
+		/* the same query at the level the client model speaks: id, type, name (decoded with the repository's own decoder) */
+		struct query q;
+		char b[64];
+		unsigned char *copy = xmalloc(64 * 1024);
+		memset(copy, 0, 64 * 1024);
+		memcpy(copy, p, len > 64 * 1024 ? 64 * 1024 : len);
+		memset(&q, 0, sizeof(q));
+		dns_decode(NULL, 0, &q, QR_QUERY, (char *) copy, len);
+		free(copy);
+		snprintf(b, sizeof(b), "query %u %u ", (unsigned) q.id, (unsigned) q.type);
+		ev_begin(b);
+		ev_hex((unsigned char *) q.name, strnlen(q.name, sizeof(q.name)));
+	}
 	return (ssize_t) len;
 }
 
@@ -387,6 +401,18 @@ static void feed(int kind, unsigned char *data, size_t len)
 	in_kind = kind;
 	in_data = data;
 	in_len = len;
+	if (kind == IN_DNS && conn == CONN_DNS_NULL) {
+		/* what read_dns_withq() makes of this datagram (DNS mode: no side effects): the client model is fed this */
+		static char rbuf[64 * 1024];
+		struct query q;
+		char b[96];
+		int rv;
+		memset(&q, 0, sizeof(q));
+		rv = read_dns_withq(DNS_FD, TUN_FD, rbuf, sizeof(rbuf), &q);
+		snprintf(b, sizeof(b), "rq %d %u %u %u %u ", rv, (unsigned) q.id, (unsigned) q.type, (unsigned) q.rcode, (unsigned) (unsigned char) q.name[0]);
+		ev_begin(b);
+		ev_hex((unsigned char *) rbuf, rv > 0 ? (size_t) rv : 0);
+	}
 	tun_skipped = 0;
 	sem_post(&sem_worker);
 	sem_wait(&sem_main);
